@@ -154,8 +154,12 @@ func (bs *bootstrap) Shutdown() {
 }
 
 // removeListener close the listener with url
-func (bs *bootstrap) removeListener(url string) {
-	bs.listeners.Delete(url)
+func (bs *bootstrap) removeListener(url string, l Listener) {
+	// only the registered listener: a stale handle of an earlier listener for the same url
+	// must not unregister the current one (Shutdown would then miss it).
+	if registered, ok := bs.listeners.Load(url); ok && registered == l {
+		bs.listeners.Delete(url)
+	}
 }
 
 type Listener interface {
@@ -187,7 +191,7 @@ func (l *listener) Acceptor() transport.Acceptor {
 
 // Close listener
 func (l *listener) Close() error {
-	l.bs.removeListener(l.url)
+	l.bs.removeListener(l.url, l)
 
 	// remember the close: an accept loop that has not created its acceptor yet must not start.
 	l.mutex.Lock()
